@@ -719,7 +719,8 @@ class Interp:
         if isinstance(a, (Opaque,)) and isinstance(b, FlagV) or isinstance(b, Opaque) and isinstance(a, FlagV):
             return Opaque(f"({to_text(a)} {opn} {to_text(b)})")
         if opn == "Add":
-            if isinstance(a, (str, Tmpl, Opaque)) and isinstance(b, (str, Tmpl, Opaque)):
+            if (isinstance(a, (str, Tmpl)) and isinstance(b, (str, Tmpl, Opaque, Sym))) or (isinstance(b, (str, Tmpl)) and isinstance(a, (str, Tmpl, Opaque, Sym))) \
+                    or (isinstance(a, Opaque) and isinstance(b, Opaque) and False):
                 if isinstance(a, str) and isinstance(b, str):
                     return a + b
                 return Tmpl([a, b])
@@ -1291,7 +1292,20 @@ def _b_set(i, a, k, t):
         return list(dict.fromkeys(a[0]))
 
 
+def _b_getattr(i, a, k, t):
+    obj, name = a[0], a[1]
+    if not isinstance(name, str):
+        raise Unsupported("getattr with a non-literal name")
+    try:
+        return i.getattr(obj, name, t)
+    except Raised:
+        if len(a) > 2:
+            return a[2]
+        raise
+
+
 BUILTINS = {
+    "getattr": Builtin("getattr", _b_getattr),
     "len": Builtin("len", _b_len),
     "isinstance": Builtin("isinstance", _b_isinstance),
     "hasattr": Builtin("hasattr", _b_hasattr),
